@@ -295,6 +295,23 @@ def handler (c : Cfg) (w : World) (sess : Nat) : Request → Option Reply × Lis
   | .readDTCOther => (some (.neg sidReadDTC nrcSubFunctionNotSupported), [])
   | .other _ => (none, [])
 
+/-- the seed texts a handler call can use, in order: a function of server seed, session and request alone -/
+def plannedTexts (c : Cfg) (sess : Nat) : Request → List (Option String)
+  | .ecuReset pdu _ => [some (seedText c.seed sess [pyBytesRepr pdu])]
+  | .requestSeed _ => [none]
+  | .sendKey .. => []
+  | .routineControl pdu rid sf =>
+    [some (seedText c.seed sess [toString sidRoutineControl, toString rid]),
+     some (addSeed (seedText c.seed sess [toString sidRoutineControl, toString rid]) (toString sf)),
+     some (seedText c.seed sess [pyBytesRepr pdu])]
+  | .readDataById pdu _ => [some (seedText c.seed sess [pyBytesRepr pdu])]
+  | .writeDataById pdu did => [some (seedText c.seed sess [toString sidWdbi, toString did]), some (seedText c.seed sess [pyBytesRepr pdu])]
+  | .ioControl pdu did => [some (seedText c.seed sess [toString sidIoctl, toString did]), some (seedText c.seed sess [pyBytesRepr pdu])]
+  | .clearDTC g => [some (seedText c.seed sess [toString sidClearDTC, toString g])]
+  | .reportDTCByStatusMask m => [some (seedText c.seed sess []), some (seedText c.seed sess [toString sidReadDTC, toString m])]
+  | .readDTCOther => []
+  | .other _ => []
+
 /-- `RandomUDSServer.respond_after_default` -/
 def respondAfterDefault (c : Cfg) (w : World) (st : State) : Request → Out
   | .sendKey t key => sendKey st t key
